@@ -58,6 +58,27 @@ var pureCallees = map[string]bool{
 
 func ruleEWriteOwnership(p *Program, r *Reporter) {
 	fns := p.ReachFuncs(p.Eval, p.Root)
+	// functions of the other packages that evaluation calls into (a method of a syntax-tree node used by the evaluator)
+	// are part of evaluation as well
+	{
+		in := map[*ssa.Function]bool{}
+		for _, f := range fns {
+			in[f] = true
+		}
+		work := append([]*ssa.Function(nil), p.ReachFuncs(p.Eval)...)
+		for len(work) > 0 {
+			f := work[0]
+			work = work[1:]
+			for _, c := range staticCallees(f) {
+				if in[c] || !p.IsRepo(c) || len(c.Blocks) == 0 {
+					continue
+				}
+				in[c] = true
+				fns = append(fns, c)
+				work = append(work, c)
+			}
+		}
+	}
 	// types whose methods write through receiver fields: their construction sites carry the obligation
 	fieldWriters := map[*types.Named]map[int]bool{}
 	// methods that assign fields of their own receiver object (a cursor, a collector): the object must be the caller's own
@@ -307,6 +328,12 @@ func freeVarFresh(fn *ssa.Function, fv *ssa.FreeVar) bool {
 			if !a.fresh(mc.Bindings[idx]) {
 				return false
 			}
+			// a closure that outlives the call that made it (returned, stored in a variable of the package or in a
+			// structure) runs against the same captured variables every time it is called, from whatever goroutine: to
+			// such a closure they are shared state, not memory of the current call
+			if closureOutlivesCall(mc) {
+				return false
+			}
 		}
 	}
 	return found
@@ -339,6 +366,27 @@ func withinReceiver(fn *ssa.Function, addr ssa.Value) bool {
 			v = x.X
 		default:
 			return false
+		}
+	}
+	return false
+}
+
+// closureOutlivesCall: the function value is returned, stored outside the frame, boxed, sent, or kept in a local
+// variable; calling it and handing it to a callee as an argument are the uses that end with the enclosing call.
+func closureOutlivesCall(mc *ssa.MakeClosure) bool {
+	rs := mc.Referrers()
+	if rs == nil {
+		return false
+	}
+	for _, ref := range *rs {
+		switch x := ref.(type) {
+		case *ssa.DebugRef:
+		case ssa.CallInstruction:
+			// the callee may of course keep it; the repository's higher-order helpers and the library's (sort, slices,
+			// range-over-func) call it and return
+			_ = x
+		default:
+			return true
 		}
 	}
 	return false
